@@ -25,4 +25,38 @@ CONFIG = {
             {'obligation': 'lemma_some_winner', 'clause': 'is_showdown_of(sd, ..) && players.len() >= 1 ==> win_count(sd.players@) >= 1'},
         ],
     ),
+
 }
+
+ITER_ALLOWED = [r'^external_body pub fn (new|f32_mul)', r'^assume_specification pub assume_specification<T> \[<\[T\]>',
+                r'^uninterp spec pub uninterp spec fn (class7|tables_ok|f32_mul_spec)', r'^broadcast axiom|^axiom pub broadcast axiom fn axiom_card_key_model']
+ITER_ASSUME = [
+    DERIVE,
+    'Card key model: derived Hash/Eq of Card agree (broadcast axiom), so vstd set semantics apply to HashSet<Card>',
+    'callee contract Showdown::new (C03) assumed here, proved in unit SHOWDOWN',
+    'assume_specification for <[T]>::fill: every element becomes the value',
+    'R7: HashSet<Card, FxBuildHasher> replaced by HashSet<Card> (abstract set semantics hold for any deterministic hasher)',
+    'R1 enumerate, R2/R10: f32 `*=` routed through f32_mul, an uninterpreted deterministic function (floats are NOT treated as reals)',
+    'R8: Iterator::next re-hosted as an inherent method so that it can carry `requires wf(self)`',
+    'iterator constructor (FlopExhaustiveEvaluatorIterator::new) establishes wf(): deck = the 49 cards not on the flop in code order, entries = the ranges\' combos with two different cards each -- see constructor obligations in evidence',
+    'spec: legal(c) is phrased as the code\'s materialisation test (no hole card equals turn, river, an earlier player\'s card, or a board card); its equivalence with "all 5+2n cards pairwise distinct" is lemma_legal_distinct',
+    'spec: that the succ-orbit from (0,1,0..) visits every valid position exactly once in lexicographic order follows from lemma_bump_val (+1 in mixed radix) and lemma_tr_succ (immediate successor); the final counting step is on paper',
+]
+ITER_SAMPLES = [
+    {'obligation': 'FlopExhaustiveEvaluatorIterator::next postcondition', 'clause': 'next_post(*old(self), *final(self), res): Some(sd) ==> exists k. skipped(g,a,k) && legal(adv(a,k)) && is_showdown_of(sd, combos_at, board_at, prob_at) && cursor == succ(adv(a,k)); None ==> some range empty or exists k. skipped(g,a,k) && adv(a,k) at the scope end'},
+    {'obligation': 'next: main loop decreases', 'clause': '48 - turn, 49 - river, radix_prod(lens) - radix_val(idx, lens)  (lexicographic)'},
+    {'obligation': 'next: built-in', 'clause': 'no u8/usize overflow, every index in bounds, every unwrap on Some'},
+]
+
+CONFIG['C02'] = dict(unit='iter', allowed=ITER_ALLOWED, assumptions=ITER_ASSUME, samples=ITER_SAMPLES,
+    stubs=['Showdown::new (contracts/showdown_new.vc, proved in unit SHOWDOWN / C03)'],
+    kinds=r'postcondition|invariant|assertion',
+    search=[['iter-search', '{seed}', '{n}', '{marker}', 'c02']], search_n={'quick': 240, 'thorough': 2400})
+CONFIG['C04'] = dict(unit='iter', allowed=ITER_ALLOWED, assumptions=ITER_ASSUME, samples=ITER_SAMPLES,
+    stubs=['Showdown::new (contracts/showdown_new.vc, proved in unit SHOWDOWN / C03)'],
+    kinds=r'postcondition|invariant|assertion',
+    search=[['iter-search', '{seed}', '{n}', '{marker}', 'c04']], search_n={'quick': 240, 'thorough': 2400})
+CONFIG['C08'] = dict(unit='iter', allowed=ITER_ALLOWED, assumptions=ITER_ASSUME, samples=ITER_SAMPLES,
+    stubs=['Showdown::new (contracts/showdown_new.vc, proved in unit SHOWDOWN / C03)'],
+    kinds=r'overflow|precondition|decreases|termination|recursion',
+    search=[['iter-search', '{seed}', '{n}', '{marker}', 'c08']], search_n={'quick': 240, 'thorough': 2400})
